@@ -147,9 +147,9 @@ Inductive tok : Type :=
 Definition tbool (b : bool) : tok := TN (if b then 1 else 0).
 Definition tout {A} (f : A -> tok) (o : outcome A) : tok :=
   match o with
-  | Ok a => TL [TN 0; f a]
-  | Err t => TL [TN 1; TN t]
-  | Panic t => TL [TN 2; TN t]
+  | Ok a => TL [TL []; TN 0; f a]
+  | Err t => TL [TL []; TN 1; TN t]
+  | Panic t => TL [TL []; TN 2; TN t]
   end.
 Definition tlistN (l : list N) : tok := TL (map TN l).
 Definition tlistB (l : list bytes) : tok := TL (map TB l).
